@@ -53,12 +53,14 @@ def corpus_cases(pdir):
     return cases
 
 
+# classes of the two defects this check found (shared with C19), both fixed in the library (NOTES.md, props/C19/fix_series):
+# `classify` only names the class when one regresses, the violation is reported as any other
 KEYS = {"noop-penalty": "lazy-noop-penalty-update-drops-heap-entry",
         "bw-latency": "bandwidth-change-during-latency-phase"}
 
 
 def classify(c, verdict):
-    """stable classification keys of the known witness classes (NOTES.md, proposed_findings.txt): the failing activity must
+    """stable classification keys of the witness classes of the fixed defects (NOTES.md): the failing activity must
     belong to the class, and the symptom must be one the defect produces:
       noop-penalty: the exec never completes / completes late (remaining already 0);
       bw-latency:   the comm never completes / completes late, or progresses while its latency is not paid with a rate the
@@ -155,8 +157,8 @@ def run(ctx):
         elif v.startswith("MONFAIL"):
             ctx.violation(v[:600], rec, key=classify(c, v))
         else:
-            # model and implementation differ while the monitor holds: a known defect class (the work received does not
-            # follow the allocated rate = the property fails), else a broken correspondence
+            # model and implementation differ while the monitor holds: a regression of a fixed defect class (the work
+            # received does not follow the allocated rate = the property fails), else a broken correspondence
             key = classify(c, v)
             if key:
                 ctx.violation(v[:600], rec, key=key)
